@@ -527,11 +527,15 @@ def fuzz_payloads(rng, se, e, block, attempts, keep):
             break
         offer(s)
     lens = sorted(set(sizes + [2 * s for s in sizes if 2 * s <= maxlen] + [3 * s for s in sizes if 3 * s <= maxlen]
-                      + [s + 1 for s in sizes] + [0, 1, 2, 3, 4, 8, 12, 16, 17, 20, 24, 32, 36, 48, 64, 76, 100]))
+                      + [s + 1 for s in sizes] + [0, 1, 2, 3, 4, 8, 12, 16, 17, 20, 24, 32, 36, 48, 64, 76, 100, 128, 256, 512, 1024]))
     lens = [n for n in lens if n <= maxlen] or [0]
     alphabets = [[0], [0, 1, 255], list(range(256)), [0, 0, 0, 1, 2, 3, 65, 0x80], [0, 0x80, 0xff, 0x7f]]
+    # every candidate length once with zeros and once with a pattern, before anything random
+    for n in lens:
+        offer(bytes(n))
+        offer(bytes((7 * i + 1) & 0xff for i in range(n)))
     for i in range(attempts):
-        if len(pool) >= keep * 3:
+        if len(pool) >= keep * 4:
             break
         mode = rng.random()
         if pool and mode < 0.55:
@@ -565,11 +569,19 @@ def fuzz_payloads(rng, se, e, block, attempts, keep):
             n = rng.choice(lens) if mode < 0.95 else rng.randrange(0, min(maxlen, 200) + 1)
             a = rng.choice(alphabets)
             offer(bytes(rng.choice(a) for _ in range(n)))
-    # keep a spread: shortest, longest, and a deterministic sample
+    # keep a spread: one payload of every accepted length first, then a deterministic sample of the rest
     pool = sorted(set(pool), key=lambda p: (len(p), p))
     if len(pool) > keep:
-        idx = sorted(set([0, 1, len(pool) - 1] + rng.sample(range(len(pool)), keep - 3)))
-        pool = [pool[i] for i in idx]
+        reps, seen_len = [], set()
+        for p in pool:
+            if len(p) not in seen_len:
+                seen_len.add(len(p))
+                reps.append(p)
+        if len(reps) > keep // 2:
+            reps = [reps[i] for i in sorted(rng.sample(range(len(reps)), keep // 2))]
+        rest = [p for p in pool if p not in set(reps)]
+        more = [rest[i] for i in sorted(rng.sample(range(len(rest)), min(len(rest), keep - len(reps))))]
+        pool = sorted(reps + more, key=lambda p: (len(p), p))
     return pool, declined, len(tried)
 
 
@@ -647,6 +659,11 @@ def _adapter_job(ei):
             if st != "ok" or to_bits(out if st == "ok" else None, w, signed) != sorted(row["x"]):
                 bad.append(("encode-canonical", x, {"pod": row["ename"], "serialize": repr(out), "spec": x}))
     fam = sorted(set(xs) | set(_A["extra"].get(ei, [])))
+    if _A.get("quick") and w == 16:
+        # quick tier: the model and the encode replay above walk all 65,536 integers; the recording of the
+        # real decode is thinned to the neighbourhood of zero, of the ends and of every member, plus every 16th
+        near = {0, fam[0], fam[-1]} | {int(m) for m in e.cls.__members__.values()}
+        fam = [x for i, x in enumerate(fam) if i % 16 == 0 or any(abs(x - c) <= 40 for c in near)]
     events = []
     names_ok = set(e.cls.__members__)
     for mode in ("pod", "obj"):
@@ -729,9 +746,9 @@ def _contract_events(chk: Check, entries, quick):
         e.ctxs = ctxs
         if e.int_type is not None:
             if e.kind != "other":
+                # Part A judges every integer of the family; here a sample goes through the generic contract too
                 vals = int_family(rng, w, signed, 12 if quick else 60, extra=[int(m) for m in e.cls.__members__.values()])
-                if w <= 16:       # Part A walks all of them; here a sample suffices
-                    vals = sorted(set(rng.sample(vals, min(len(vals), 64 if quick else 1024))) | {vals[0], vals[-1], 0})
+                vals = sorted(set(rng.sample(vals, min(len(vals), 24 if quick else 400))) | {vals[0], vals[-1], 0})
             elif is_date:
                 mult = getattr(ser.ADAPTER, "_multiplier", 1)
                 vals = date_values(rng, w, signed, mult, 30 if quick else 1500)
@@ -782,6 +799,13 @@ def _report_contract_fail(chk, law, ev, ex, counts):
     feat = {"kind": "contract", "law": law, "key": e.name, "ser": e.ser_name, "mode": ex["mode"], "org": ex["org"]}
     if ex.get("tz"):
         feat["tz"] = ex["tz"]
+    if e.kind != "other":
+        feat["cls"] = e.kind
+    if e.int_type is not None and isinstance(ex["raw0"], int):
+        feat["signed"], feat["negative"] = e.int_type[1], ex["raw0"] < 0
+    ad = getattr(e.ser, "ADAPTER", None)
+    if ad is not None:
+        feat["adapter"] = type(ad).__name__
     if ex["ctx"]:
         feat["ctx"] = {k: int(v) for k, v in ex["ctx"].items()}
     detail = {"raw0": ex["raw0"].hex() if isinstance(ex["raw0"], (bytes, bytearray)) else ex["raw0"], "event": {k: v for k, v in ev.items() if k not in ("raw0", "raw1", "raw2")}}
@@ -954,8 +978,12 @@ def _validate(chk: Check, recs, events):
                 cur, weight = [], 0
         if cur:
             traces.append(cur)
+        # validate_traces cuts the list into contiguous shards: deal the heavy traces round
+        shards = 8
+        traces.sort(key=lambda t: -sum(len(ev.get("s", ())) + 4 for ev in t))
+        traces = [t for k in range(shards) for t in traces[k::shards]]
         cfg = "SPECIFICATION TraceSpec\nCONSTANTS Raws = {0}\nPOSTCONDITION TraceAccepted\nCHECK_DEADLOCK FALSE\n"
-        acc, rej, results = common.validate_traces("Subfield_Trace", cfg, traces, chk.scratch, shards=common.NCPU)
+        acc, rej, results = common.validate_traces("Subfield_Trace", cfg, traces, chk.scratch, shards=shards)
     finally:
         os.environ.pop("SUBFIELD_ADAPTERS", None)
     fails = collections.defaultdict(list)
@@ -1021,7 +1049,7 @@ def _run(chk: Check, quick, se):
         if e.kind != "other" and e.int_type[0] > 16:
             extra[i] = int_family(rng, e.int_type[0], e.int_type[1], 40 if quick else 2000,
                                   extra=[int(m) for m in e.cls.__members__.values()])
-    _A.update(se=se, entries=entries, rows=rows, recs=recs, extra=extra)
+    _A.update(se=se, entries=entries, rows=rows, recs=recs, extra=extra, quick=quick)
     a_idx = [i for i, e in enumerate(entries) if e.kind != "other"]
     a_idx.sort(key=lambda i: -len(rows.get(entries[i].ai, [])))
     results = common.parallel_map(_adapter_job, a_idx)
